@@ -81,6 +81,7 @@ fn parse_case(case: &str) -> (u8, Vec<FileSpec>)
 fn trias_path() -> PathBuf
 {
 	if let Ok(p) = std::env::var("VERIF_TRIAS") { return PathBuf::from(p); }
+	if let Ok(d) = std::env::var("VERIF_BIN_DIR") { if !d.is_empty() { return PathBuf::from(d).join("trias"); } }
 	// <build>/target/<profile>/trias (this harness)  ->  <build>/target_repo/release/trias (the real binary)
 	let exe = std::env::current_exe().unwrap();
 	let build = exe.parent().and_then(|p| p.parent()).and_then(|p| p.parent()).map(|p| p.to_path_buf()).unwrap_or(PathBuf::from("/verif/.build"));
